@@ -3,7 +3,7 @@ import IofloModel.Lemmas.Share
 # C19 — share stamps, fields and decks follow their documented rules
 
 Property theorems only.  Model: `Model/Share.lean` (transcription of `storing.Share`, `Data`,
-`Deck`, with the repairs D11b, D11c, D11d of `/verif/fixes`; defects D11 and D11e are reproduced).
+`Deck`, with the repairs D11b, D11c, D11d, D11f of `/verif/fixes`; defects D11 and D11e are reproduced).
 `w` ranges over all worlds (share + two stores), histories over all operation lists.
 -/
 namespace Ioflo.Share
@@ -163,6 +163,45 @@ theorem C19_fields_ordered_map_get (w : World) (hs : Sync w.data) (k : Str) (hp 
   simp only [step, hasattr]
   rw [h]
   cases lookup (view w.data) k <;> simp [toKey]
+
+/-- **Ordered map, positional insertion** (`Share.insert`, with the D11f repair): a name that is
+not a public identifier, or that is already a field, is refused with KeyError and nothing
+changes; otherwise the new key sits in `keys()` where Python's `list.insert(index, key)` puts it,
+the other keys keep their order, and only the new key's value is new. -/
+theorem C19_fields_ordered_map_insert (w : World) (hs : Sync w.data) (idx : Int) (k : Str) (v : Val) :
+    (identPub k = false → step w (.insert idx k v) = (w, .err .keyError)) ∧
+    (identPub k = true → k ∈ w.data.keys → step w (.insert idx k v) = (w, .err .keyError)) ∧
+    (identPub k = true → k ∉ w.data.keys →
+      (step w (.insert idx k v)).2 = .unit ∧
+      (view (step w (.insert idx k v)).1.data).map Prod.fst = pyInsert w.data.keys idx k ∧
+      ∀ j, lookup (view (step w (.insert idx k v)).1.data) j =
+        if j = k then some v else lookup (view w.data) j) := by
+  refine ⟨?_, ?_, ?_⟩
+  · intro hp; simp [step, hp]
+  · intro hp hm
+    have := hs.keysInRaw k hm
+    simp [step, hp, this]
+  · intro hp hm
+    have hc := identPub_not_classAttr hp
+    have hn : lookup w.data.raw k = none := by
+      cases hl : lookup w.data.raw k with
+      | none => rfl
+      | some x =>
+        rcases hs.rawInKeys k (by simp [hl]) with h1 | h1
+        · exact absurd h1 hm
+        · rw [hc] at h1; simp at h1
+    have hs' := sync_insert hs v idx hn hp
+    have hstep : step w (.insert idx k v) =
+        ({ w with data := ⟨rawSet w.data.raw k v, pyInsert w.data.keys idx k⟩ }, .unit) := by
+      simp [step, hp, hn]
+    rw [hstep]
+    refine ⟨rfl, view_keys hs', ?_⟩
+    intro j
+    simp only [lookup_view, lookup_rawSet, mem_pyInsert]
+    by_cases e : j = k
+    · subst e; simp
+    · have e' : ¬ k = j := fun x => e x.symm
+      simp [e, e']
 
 /-- the three statements above for every reachable state of a share -/
 theorem C19_fields_ordered_map (ops : List Op) (k : Str) (v : Val) (hp : identPub k = true) :
@@ -363,6 +402,7 @@ end Ioflo.Share
 #print axioms Ioflo.Share.C19_fields_ordered_map_del
 #print axioms Ioflo.Share.C19_fields_ordered_map_get
 #print axioms Ioflo.Share.C19_fields_ordered_map
+#print axioms Ioflo.Share.C19_fields_ordered_map_insert
 #print axioms Ioflo.Share.C19_field_names_public_partial
 #print axioms Ioflo.Share.C19_counterexample_sift
 #print axioms Ioflo.Share.C19_deck_fifo
